@@ -2,11 +2,13 @@
   Proofs/Interp.lean — helper lemmas for C14 (Lagrange interpolation, /repo/univariate/interpolation.go):
   `eraseDups` and `allDistinct`, the combination sum of `coefK` as an elementary symmetric sum (Vieta),
   `ignoreIndex`, the coefficient loop and the denominator loop of `lagrangeBasis`, the main loop of
-  `interpolate`.
+  `interpolate`; bivariate (/repo/bivariate/interpolation.go): `BPoly.lagrangeBasis` and its evaluation,
+  `distinctStrs`, one round (`istep`) and the main loop of `BPoly.interpolate` in a ring without ideal.
 -/
 import Mathlib.RingTheory.Polynomial.Vieta
 import Mathlib.LinearAlgebra.Lagrange
 import Algobra.Proofs.UPolyRefine
+import Algobra.Proofs.BPolyRefine
 import Algobra.Props.C19
 
 namespace Algobra
@@ -295,35 +297,39 @@ theorem pt_injOn {points : List α} (hp : ∀ p ∈ points, L.valid p) (hnd : po
   rw [List.getD_eq_getElem _ _ hi', List.getD_eq_getElem _ _ hj'] at this
   exact (hnd.getElem_inj_iff).1 this
 
-theorem lagrangeBasis_spec {points : List α} (hp : ∀ p ∈ points, L.valid p)
-    (hone : L.valid (F.ofNat 1) ∧ L.embed (F.ofNat 1) = 1) (hnd : points.Nodup) {idx : ℕ}
+/-- `ignoreIndex` on pairwise distinct points -/
+theorem ignoreIndex_nodup {points : List α} (hp : ∀ p ∈ points, L.valid p) (hnd : points.Nodup)
+    {idx : ℕ} (hidx : idx < points.length) :
+    UPoly.ignoreIndex F points (points.getD idx F.zero) = idx := by
+  refine ignoreIndex_spec L points _ hp (getD_valid L hp idx) hidx rfl ?_
+  intro j hj hje
+  rw [List.getD_eq_getElem _ _ hj, List.getD_eq_getElem _ _ hidx] at hje
+  exact (hnd.getElem_inj_iff).1 hje
+
+/-- the coefficients computed by `coefK` are those of the numerator `∏_{j≠idx} (X - p_j)` -/
+theorem numer_sum {points : List α} (hp : ∀ p ∈ points, L.valid p)
+    (hone : L.valid (F.ofNat 1) ∧ L.embed (F.ofNat 1) = 1) {idx : ℕ}
     (hidx : idx < points.length) :
-    UPoly.WF L (UPoly.lagrangeBasis F points (points.getD idx F.zero)) ∧
-    UPoly.toPoly L (UPoly.lagrangeBasis F points (points.getD idx F.zero)) =
-      C (∏ j ∈ (Finset.range points.length).erase idx, (pt L points idx - pt L points j))⁻¹ *
-        ∏ j ∈ (Finset.range points.length).erase idx, (X - C (pt L points j)) := by
-  have hign := getD_valid L hp idx
-  have hii : UPoly.ignoreIndex F points (points.getD idx F.zero) = idx := by
-    refine ignoreIndex_spec L points _ hp hign hidx rfl ?_
-    intro j hj hje
-    rw [List.getD_eq_getElem _ _ hj, List.getD_eq_getElem _ _ hidx] at hje
-    exact (hnd.getElem_inj_iff).1 hje
-  obtain ⟨d1, d2⟩ := denom_fold L points (points.getD idx F.zero) idx hp hign (pt L points)
-    (fun _ _ => rfl)
-  obtain ⟨c1, c2⟩ := coef_fold L (fun k => UPoly.coefK F points idx k) points.length
-    (fun k hk => (coefK_spec L hp hone hidx hk).1)
-  have hP : UPoly.toPoly L ((List.range points.length).foldl
-      (fun f k => UPoly.setCoef F f k (UPoly.coefK F points idx k)) (UPoly.zero F)) =
+    ∑ k ∈ Finset.range points.length, monomial k (L.embed (UPoly.coefK F points idx k)) =
       ∏ j ∈ (Finset.range points.length).erase idx, (X - C (pt L points j)) := by
-    rw [c2]
-    have hdeg : (∏ j ∈ (Finset.range points.length).erase idx,
-        (X - C (pt L points j))).natDegree < points.length := by
-      rw [← Lagrange.nodal_eq, Lagrange.natDegree_nodal,
-        Finset.card_erase_of_mem (Finset.mem_range.2 hidx), Finset.card_range]
-      omega
-    conv_rhs => rw [as_sum_range' _ _ hdeg]
-    refine Finset.sum_congr rfl fun k hk => ?_
-    rw [(coefK_spec L hp hone hidx (Finset.mem_range.1 hk)).2]
+  have hdeg : (∏ j ∈ (Finset.range points.length).erase idx,
+      (X - C (pt L points j))).natDegree < points.length := by
+    rw [← Lagrange.nodal_eq, Lagrange.natDegree_nodal,
+      Finset.card_erase_of_mem (Finset.mem_range.2 hidx), Finset.card_range]
+    omega
+  conv_rhs => rw [as_sum_range' _ _ hdeg]
+  refine Finset.sum_congr rfl fun k hk => ?_
+  rw [(coefK_spec L hp hone hidx (Finset.mem_range.1 hk)).2]
+
+/-- the denominator is invertible for pairwise distinct points -/
+theorem denom_inv {points : List α} (hp : ∀ p ∈ points, L.valid p) (hnd : points.Nodup) {idx : ℕ}
+    (hidx : idx < points.length) :
+    ∃ i, F.inv ((points.zipIdx).foldl (fun d (p, i) =>
+        if i = idx then d else F.mul d (F.sub (points.getD idx F.zero) p)) F.one) = some i ∧
+      L.valid i ∧ L.embed i =
+        (∏ j ∈ (Finset.range points.length).erase idx, (pt L points idx - pt L points j))⁻¹ := by
+  obtain ⟨d1, d2⟩ := denom_fold L points (points.getD idx F.zero) idx hp (getD_valid L hp idx)
+    (pt L points) (fun _ _ => rfl)
   have hd0 : L.embed ((points.zipIdx).foldl
       (fun d (p, i) => if i = idx then d else F.mul d (F.sub (points.getD idx F.zero) p)) F.one)
       ≠ 0 := by
@@ -334,13 +340,33 @@ theorem lagrangeBasis_spec {points : List α} (hp : ∀ p ∈ points, L.valid p)
     exact hj.1 ((pt_injOn L hp hnd (by simpa using hj.2) (by simpa using hidx)
       (sub_eq_zero.1 h0).symm))
   obtain ⟨i, hi1, hi2, hi3⟩ := L.inv_some _ d1 hd0
+  exact ⟨i, hi1, hi2, by rw [hi3, d2]; rfl⟩
+
+/-- the closed form is Mathlib's `Lagrange.basis` -/
+theorem basis_eq {K : Type} [Field K] (n idx : ℕ) (e : ℕ → K) :
+    C (∏ j ∈ (Finset.range n).erase idx, (e idx - e j))⁻¹ *
+        ∏ j ∈ (Finset.range n).erase idx, (X - C (e j)) =
+      Lagrange.basis (Finset.range n) e idx := by
+  rw [Lagrange.basis]
+  simp only [Lagrange.basisDivisor]
+  rw [Finset.prod_mul_distrib, ← map_prod, Finset.prod_inv_distrib]
+
+theorem lagrangeBasis_spec {points : List α} (hp : ∀ p ∈ points, L.valid p)
+    (hone : L.valid (F.ofNat 1) ∧ L.embed (F.ofNat 1) = 1) (hnd : points.Nodup) {idx : ℕ}
+    (hidx : idx < points.length) :
+    UPoly.WF L (UPoly.lagrangeBasis F points (points.getD idx F.zero)) ∧
+    UPoly.toPoly L (UPoly.lagrangeBasis F points (points.getD idx F.zero)) =
+      C (∏ j ∈ (Finset.range points.length).erase idx, (pt L points idx - pt L points j))⁻¹ *
+        ∏ j ∈ (Finset.range points.length).erase idx, (X - C (pt L points j)) := by
+  obtain ⟨c1, c2⟩ := coef_fold L (fun k => UPoly.coefK F points idx k) points.length
+    (fun k hk => (coefK_spec L hp hone hidx hk).1)
+  obtain ⟨i, hi1, hi2, hi3⟩ := denom_inv L hp hnd hidx
   unfold UPoly.lagrangeBasis
   simp only []
-  rw [hii, hi1]
+  rw [ignoreIndex_nodup L hp hnd hidx, hi1]
   simp only []
   refine ⟨UPoly.scale_wf L c1 hi2, ?_⟩
-  rw [UPoly.toPoly_scale L c1.1 hi2, hP, hi3, d2]
-  rfl
+  rw [UPoly.toPoly_scale L c1.1 hi2, c2, numer_sum L hp hone hidx, hi3]
 
 /-- the model's basis polynomial is Mathlib's `Lagrange.basis` -/
 theorem lagrangeBasis_eq_basis {points : List α} (hp : ∀ p ∈ points, L.valid p)
@@ -348,11 +374,451 @@ theorem lagrangeBasis_eq_basis {points : List α} (hp : ∀ p ∈ points, L.vali
     (hidx : idx < points.length) :
     UPoly.toPoly L (UPoly.lagrangeBasis F points (points.getD idx F.zero)) =
       Lagrange.basis (Finset.range points.length) (pt L points) idx := by
-  rw [(lagrangeBasis_spec L hp hone hnd hidx).2, Lagrange.basis]
-  simp only [Lagrange.basisDivisor]
-  rw [Finset.prod_mul_distrib, ← map_prod, Finset.prod_inv_distrib]
+  rw [(lagrangeBasis_spec L hp hone hnd hidx).2, basis_eq]
+
+/-! ### `allDistinct` and the main loop of `interpolate` -/
+
+theorem allDistinct_iff (points : List α) :
+    UPoly.allDistinct F points = true ↔ (points.map F.toStr).Nodup := by
+  unfold UPoly.allDistinct
+  simp only [beq_iff_eq]
+  rw [eq_comm, eraseDups_length_eq_iff]
+
+theorem allDistinct_iff_nodup {points : List α} (hp : ∀ p ∈ points, L.valid p)
+    (htoStr : ∀ a b, L.valid a → L.valid b → (F.toStr a = F.toStr b ↔ a = b)) :
+    UPoly.allDistinct F points = true ↔ points.Nodup := by
+  rw [allDistinct_iff]
+  constructor
+  · exact List.Nodup.of_map _
+  · exact List.Nodup.map_on fun x hx y hy h => (htoStr x y (hp x hx) (hp y hy)).1 h
+
+theorem interp_fold {points values : List α} (hp : ∀ p ∈ points, L.valid p)
+    (hv : ∀ v ∈ values, L.valid v) (hone : L.valid (F.ofNat 1) ∧ L.embed (F.ofNat 1) = 1)
+    (hnd : points.Nodup) (hlen : points.length = values.length) (m : ℕ)
+    (hm : m ≤ points.length) :
+    UPoly.WF L (((points.zip values).take m).foldl (fun f (p, v) =>
+      if F.isZero v then f
+      else UPoly.add F f (UPoly.scale F (UPoly.lagrangeBasis F points p) v)) (UPoly.zero F)) ∧
+    UPoly.toPoly L (((points.zip values).take m).foldl (fun f (p, v) =>
+      if F.isZero v then f
+      else UPoly.add F f (UPoly.scale F (UPoly.lagrangeBasis F points p) v)) (UPoly.zero F)) =
+      ∑ i ∈ Finset.range m, C (L.embed (values.getD i F.zero)) *
+        Lagrange.basis (Finset.range points.length) (pt L points) i := by
+  induction m with
+  | zero => simp [UPoly.wf_zero, UPoly.toPoly_zero]
+  | succ m ih =>
+    obtain ⟨h1, h2⟩ := ih (by omega)
+    have hmp : m < points.length := by omega
+    have hmv : m < values.length := by omega
+    have hmz : m < (points.zip values).length := by simp; omega
+    have hvm : L.valid values[m] := hv _ (List.getElem_mem hmv)
+    rw [List.take_succ_eq_append_getElem hmz, List.foldl_append, List.getElem_zip]
+    simp only [List.foldl_cons, List.foldl_nil]
+    rw [Finset.sum_range_succ, List.getD_eq_getElem _ _ hmv]
+    split
+    · next hz =>
+      refine ⟨h1, ?_⟩
+      rw [h2, (L.isZero_iff _ hvm).1 hz]
+      simp
+    · next hz =>
+      have hb := lagrangeBasis_spec L hp hone hnd hmp
+      rw [List.getD_eq_getElem _ _ hmp] at hb
+      have hbe := lagrangeBasis_eq_basis L hp hone hnd hmp
+      rw [List.getD_eq_getElem _ _ hmp] at hbe
+      have hs := UPoly.scale_wf L hb.1 hvm
+      refine ⟨UPoly.add_wf L h1 hs.1, ?_⟩
+      rw [UPoly.toPoly_add L h1 hs.1, UPoly.toPoly_scale L hb.1.1 hvm, h2, hbe]
 
 end Model
+
+/-! ### bivariate: `BPoly.lagrangeBasis` -/
+
+section Biv
+open AddMonoidAlgebra (single)
+variable {α : Type} {F : FOps α} {K : Type} [Field K] (L : Lawful F K)
+
+/-- exponent pair of the `k`-th power of variable `v` (0 = X, otherwise Y) -/
+def dg (v k : ℕ) : Deg := if v = 0 then (k, 0) else (0, k)
+
+theorem dg_inj (v : ℕ) {k l : ℕ} (h : dg v k = dg v l) : k = l := by
+  unfold dg at h
+  split at h <;> simp at h <;> exact h
+
+theorem KeysIn_mono {P Q : Deg → Prop} {f : BPoly α} (h : BPoly.KeysIn P f)
+    (hPQ : ∀ d, P d → Q d) : BPoly.KeysIn Q f := fun e he => hPQ e (h e he)
+
+/-- the coefficient loop of the bivariate `lagrangeBasis` -/
+theorem bcoef_fold (v : ℕ) (c : ℕ → α) (m : ℕ) (hc : ∀ k < m, L.valid (c k)) :
+    BPoly.WF L ((List.range m).foldl (fun f k =>
+      BPoly.setCoef F f (if v = 0 then (k, 0) else (0, k)) (c k)) []) ∧
+    BPoly.KeysIn (fun d => ∃ k < m, d = dg v k) ((List.range m).foldl (fun f k =>
+      BPoly.setCoef F f (if v = 0 then (k, 0) else (0, k)) (c k)) []) ∧
+    BPoly.toMv L ((List.range m).foldl (fun f k =>
+      BPoly.setCoef F f (if v = 0 then (k, 0) else (0, k)) (c k)) []) =
+      ∑ k ∈ Finset.range m, single (dg v k) (L.embed (c k)) := by
+  induction m with
+  | zero => exact ⟨BPoly.WF_nil L, BPoly.KeysIn_nil _, by simp⟩
+  | succ m ih =>
+    obtain ⟨h1, h2, h3⟩ := ih (fun k hk => hc k (by omega))
+    rw [List.range_succ, List.foldl_append]
+    simp only [List.foldl_cons, List.foldl_nil]
+    have hcm := hc m (by omega)
+    have hnot : dg v m ∉ BPoly.keys ((List.range m).foldl (fun f k =>
+        BPoly.setCoef F f (if v = 0 then (k, 0) else (0, k)) (c k)) []) := by
+      intro hmem
+      obtain ⟨k, hk, hkd⟩ := h2 _ hmem
+      have := dg_inj v hkd
+      omega
+    refine ⟨BPoly.WF_setCoef L h1 _ hcm, ?_, ?_⟩
+    · exact BPoly.KeysIn_setCoef (KeysIn_mono h2 fun d ⟨k, hk, hd⟩ => ⟨k, by omega, hd⟩)
+        ⟨m, by omega, rfl⟩ _
+    · rw [BPoly.toMv_setCoef L h1 _ hcm, h3, Finset.sum_range_succ]
+      show _ + single (dg v m) (L.embed (c m) - L.embed (BPoly.coef F _ (dg v m))) = _
+      rw [BPoly.coef_of_not_mem hnot, L.embed_zero, sub_zero]
+
+theorem blagrangeBasis_spec {points : List α} (hp : ∀ p ∈ points, L.valid p)
+    (hone : L.valid (F.ofNat 1) ∧ L.embed (F.ofNat 1) = 1) (hnd : points.Nodup) {idx : ℕ}
+    (hidx : idx < points.length) (v : ℕ) :
+    BPoly.WF L (BPoly.lagrangeBasis F points (points.getD idx F.zero) v) ∧
+    BPoly.KeysIn (fun d => ∃ k < points.length, d = dg v k)
+      (BPoly.lagrangeBasis F points (points.getD idx F.zero) v) ∧
+    BPoly.toMv L (BPoly.lagrangeBasis F points (points.getD idx F.zero) v) =
+      single 0 (∏ j ∈ (Finset.range points.length).erase idx,
+          (pt L points idx - pt L points j))⁻¹ *
+        ∑ k ∈ Finset.range points.length,
+          single (dg v k) (L.embed (UPoly.coefK F points idx k)) := by
+  obtain ⟨c1, c2, c3⟩ := bcoef_fold L v (fun k => UPoly.coefK F points idx k) points.length
+    (fun k hk => (coefK_spec L hp hone hidx hk).1)
+  obtain ⟨i, hi1, hi2, hi3⟩ := denom_inv L hp hnd hidx
+  unfold BPoly.lagrangeBasis
+  simp only []
+  rw [ignoreIndex_nodup L hp hnd hidx, hi1]
+  simp only []
+  refine ⟨BPoly.WF_scale L c1 hi2, BPoly.KeysIn_scale c2 _, ?_⟩
+  rw [BPoly.toMv_scale L c1.cv hi2, c3, hi3]
+
+/-- evaluating the bivariate basis polynomial: Mathlib's `Lagrange.basis` in the chosen variable -/
+theorem evalHom_blagrangeBasis {points : List α} (hp : ∀ p ∈ points, L.valid p)
+    (hone : L.valid (F.ofNat 1) ∧ L.embed (F.ofNat 1) = 1) (hnd : points.Nodup) {idx : ℕ}
+    (hidx : idx < points.length) (v : ℕ) (x y : K) :
+    BPoly.evalHom x y (BPoly.toMv L (BPoly.lagrangeBasis F points (points.getD idx F.zero) v)) =
+      (Lagrange.basis (Finset.range points.length) (pt L points) idx).eval
+        (if v = 0 then x else y) := by
+  rw [(blagrangeBasis_spec L hp hone hnd hidx v).2.2, ← basis_eq, ← numer_sum L hp hone hidx,
+    map_mul, map_sum, BPoly.evalHom_single, eval_mul, eval_C, eval_finsetSum]
+  simp only [BPoly.evalHom_single, eval_monomial]
+  congr 1
+  · simp
+  · refine Finset.sum_congr rfl fun k _ => ?_
+    unfold dg
+    split <;> simp
+
+/-! ### bivariate: `distinctStrs`, the step of `BPoly.interpolate` -/
+
+/-- value of the basis polynomial at a node -/
+theorem evalHom_blagrangeBasis_node {points : List α} (hp : ∀ p ∈ points, L.valid p)
+    (hone : L.valid (F.ofNat 1) ∧ L.embed (F.ofNat 1) = 1) (hnd : points.Nodup) {i j : ℕ}
+    (hi : i < points.length) (hj : j < points.length) (v : ℕ) (x y : K)
+    (hz : (if v = 0 then x else y) = pt L points j) :
+    BPoly.evalHom x y (BPoly.toMv L (BPoly.lagrangeBasis F points (points.getD i F.zero) v)) =
+      if i = j then 1 else 0 := by
+  rw [evalHom_blagrangeBasis L hp hone hnd hi, hz]
+  split
+  · next h =>
+    subst h
+    exact Lagrange.eval_basis_self (pt_injOn L hp hnd) (Finset.mem_range.2 hi)
+  · next h => exact Lagrange.eval_basis_of_ne h (Finset.mem_range.2 hj)
+
+theorem distinctStrs_aux
+    (htoStr : ∀ a b, L.valid a → L.valid b → (F.toStr a = F.toStr b ↔ a = b))
+    (xs acc : List α) (hxs : ∀ x ∈ xs, L.valid x) (hacc : ∀ x ∈ acc, L.valid x)
+    (hnd : acc.Nodup) :
+    (xs.foldl (fun acc x =>
+      if acc.any (fun y => F.toStr y == F.toStr x) then acc else acc ++ [x]) acc).Nodup ∧
+    ∀ a, a ∈ xs.foldl (fun acc x =>
+      if acc.any (fun y => F.toStr y == F.toStr x) then acc else acc ++ [x]) acc ↔
+      a ∈ acc ∨ a ∈ xs := by
+  induction xs generalizing acc with
+  | nil => simp [hnd]
+  | cons x t ih =>
+    have hx : L.valid x := hxs x (by simp)
+    have ht : ∀ y ∈ t, L.valid y := fun y hy => hxs y (by simp [hy])
+    have hany : acc.any (fun y => F.toStr y == F.toStr x) = true ↔ x ∈ acc := by
+      rw [List.any_eq_true]
+      constructor
+      · rintro ⟨y, hy, hyx⟩
+        have := (htoStr y x (hacc y hy) hx).1 (by simpa using hyx)
+        exact this ▸ hy
+      · intro h; exact ⟨x, h, by simp⟩
+    rw [List.foldl_cons]
+    by_cases hm : x ∈ acc
+    · rw [if_pos (hany.2 hm)]
+      obtain ⟨h1, h2⟩ := ih acc ht hacc hnd
+      refine ⟨h1, fun a => ?_⟩
+      rw [h2, List.mem_cons]
+      constructor
+      · rintro (h | h); exact Or.inl h; exact Or.inr (Or.inr h)
+      · rintro (h | h | h); exact Or.inl h; exact Or.inl (h ▸ hm); exact Or.inr h
+    · rw [if_neg (fun h => hm (hany.1 h))]
+      obtain ⟨h1, h2⟩ := ih (acc ++ [x]) ht
+        (fun y hy => by
+          rcases List.mem_append.1 hy with h | h
+          · exact hacc y h
+          · rw [List.mem_singleton.1 h]; exact hx)
+        (by
+          rw [List.nodup_append]
+          refine ⟨hnd, by simp, ?_⟩
+          intro a ha b hb
+          rw [List.mem_singleton.1 hb]
+          exact fun hab => hm (hab ▸ ha))
+      refine ⟨h1, fun a => ?_⟩
+      rw [h2, List.mem_append, List.mem_singleton, List.mem_cons, or_assoc]
+
+/-- `distinct`: the list of distinct coordinates — no repetition, same members -/
+theorem distinctStrs_spec
+    (htoStr : ∀ a b, L.valid a → L.valid b → (F.toStr a = F.toStr b ↔ a = b))
+    (xs : List α) (hxs : ∀ x ∈ xs, L.valid x) :
+    (BPoly.distinctStrs F xs).Nodup ∧ (∀ a, a ∈ BPoly.distinctStrs F xs ↔ a ∈ xs) ∧
+    (BPoly.distinctStrs F xs).length ≤ xs.length := by
+  obtain ⟨h1, h2⟩ := distinctStrs_aux L htoStr xs [] hxs (by simp) List.nodup_nil
+  have h3 : ∀ a, a ∈ BPoly.distinctStrs F xs ↔ a ∈ xs := fun a => by
+    unfold BPoly.distinctStrs; rw [h2]; simp
+  exact ⟨h1, h3, (List.Nodup.subperm h1 (fun a ha => (h3 a).1 ha)).length_le⟩
+
+/-- one round of the loop of `BPoly.interpolate` (the model's lambda, named) -/
+def istep (R : BPoly.Ring α) (dx dy : List α) (acc : Except Kind (Option (BPoly α)))
+    (pv : (α × α) × α) : Except Kind (Option (BPoly α)) :=
+  match acc with
+  | .error k => .error k
+  | .ok none => .ok none
+  | .ok (some f) =>
+    if R.F.isZero pv.2 then .ok (some f)
+    else
+      let one : BPoly α := BPoly.setCoef R.F [] (0, 0) R.F.one
+      match BPoly.times R one (BPoly.lagrangeBasis R.F dx pv.1.1 0) with
+      | .error k => .error k
+      | .ok none => .ok none
+      | .ok (some t1) =>
+        match BPoly.times R t1 (BPoly.lagrangeBasis R.F dy pv.1.2 1) with
+        | .error k => .error k
+        | .ok none => .ok none
+        | .ok (some t2) => .ok (some (BPoly.add R.F f (BPoly.scale R.F t2 pv.2)))
+
+theorem interpolate_eq (R : BPoly.Ring α) (points : List (α × α)) (values : List α) :
+    BPoly.interpolate R points values =
+      if points.length ≠ values.length then .error .inputValue
+      else if !BPoly.allDistinct R.F points then .error .inputValue
+      else (points.zip values).foldl
+        (istep R (BPoly.distinctStrs R.F (points.map (·.1)))
+          (BPoly.distinctStrs R.F (points.map (·.2)))) (.ok (some [])) := rfl
+
+theorem times_ok {R : BPoly.Ring α} (hR : R.ideal = none) {f g h : BPoly α}
+    (e : BPoly.mulNoReduce R.F f g = some h) : BPoly.times R f g = .ok (some h) := by
+  unfold BPoly.times BPoly.reduceIn
+  rw [e, hR]
+
+/-- the contribution of one point to the interpolant -/
+noncomputable def bterm (dx dy : List α) (p : α × α) (v : α) : AddMonoidAlgebra K (ℕ × ℕ) :=
+  single 0 (L.embed v) * (BPoly.toMv L (BPoly.lagrangeBasis F dx p.1 0) *
+    BPoly.toMv L (BPoly.lagrangeBasis F dy p.2 1))
+
+include L in
+theorem setCoef_one : BPoly.setCoef F ([] : BPoly α) (0, 0) F.one = [((0, 0), F.one)] := by
+  unfold BPoly.setCoef
+  rw [if_neg]
+  · rfl
+  · rw [L.isZero_iff _ L.one_valid, L.embed_one]; exact one_ne_zero
+
+end Biv
+
+section BivStep
+open AddMonoidAlgebra (single)
+variable {α : Type} {K : Type} [Field K]
+
+theorem istep_spec {R : BPoly.Ring α} (hR : R.ideal = none) (L : Lawful R.F K) {dx dy : List α}
+    (hdx : ∀ a ∈ dx, L.valid a) (hdxn : dx.Nodup) (hdy : ∀ a ∈ dy, L.valid a) (hdyn : dy.Nodup)
+    (hone : L.valid (R.F.ofNat 1) ∧ L.embed (R.F.ofNat 1) = 1)
+    (hlx : dx.length < 2 ^ 64) (hly : dy.length < 2 ^ 64) {f : BPoly α} (hf : BPoly.WF L f)
+    (hk : BPoly.KeysIn (fun d => d.1 < dx.length ∧ d.2 < dy.length) f) {p : α × α} {v : α}
+    (hpx : p.1 ∈ dx) (hpy : p.2 ∈ dy) (hv : L.valid v) :
+    ∃ f', istep R dx dy (.ok (some f)) (p, v) = .ok (some f') ∧ BPoly.WF L f' ∧
+      BPoly.KeysIn (fun d => d.1 < dx.length ∧ d.2 < dy.length) f' ∧
+      BPoly.toMv L f' = BPoly.toMv L f + bterm L dx dy p v := by
+  unfold istep
+  simp only []
+  by_cases hz : R.F.isZero v = true
+  · rw [if_pos hz]
+    refine ⟨f, rfl, hf, hk, ?_⟩
+    rw [bterm, (L.isZero_iff v hv).1 hz]
+    simp
+  · rw [if_neg hz, setCoef_one L]
+    obtain ⟨ix, hix, hixe⟩ := List.getElem_of_mem hpx
+    obtain ⟨iy, hiy, hiye⟩ := List.getElem_of_mem hpy
+    have hpx' : p.1 = dx.getD ix R.F.zero := by rw [List.getD_eq_getElem _ _ hix, hixe]
+    have hpy' : p.2 = dy.getD iy R.F.zero := by rw [List.getD_eq_getElem _ _ hiy, hiye]
+    obtain ⟨wx, kx, _⟩ := blagrangeBasis_spec L hdx hone hdxn hix 0
+    obtain ⟨wy, ky, _⟩ := blagrangeBasis_spec L hdy hone hdyn hiy 1
+    rw [← hpx'] at wx kx
+    rw [← hpy'] at wy ky
+    -- first product
+    have hno1 : ¬ BPoly.Ovf [((0, 0), R.F.one)] (BPoly.lagrangeBasis R.F dx p.1 0) := by
+      rintro ⟨x, hx, y, hy, hov⟩
+      rw [List.mem_singleton] at hx
+      obtain ⟨k, hk', hkd⟩ := kx y.1 (List.mem_map.2 ⟨y, hy, rfl⟩)
+      apply hov
+      rw [hx, hkd]
+      unfold BPoly.NoOvf dg
+      simp
+      omega
+    obtain ⟨t1, e1, w1, m1⟩ := BPoly.mulNoReduce_some L (BPoly.WF_one L).cv wx.cv hno1
+    have k1 : BPoly.KeysIn (fun d => d.1 < dx.length ∧ d.2 = 0) t1 := by
+      refine BPoly.KeysIn_mulNoReduce (fun a ha b hb s hs => ?_) e1
+      simp only [BPoly.keys, List.map_cons, List.map_nil, List.mem_singleton] at ha
+      obtain ⟨k, hk', hkd⟩ := kx b hb
+      subst ha hkd
+      rw [BPoly.addDegs_of_noOvf (by unfold BPoly.NoOvf dg; simp; omega)] at hs
+      cases hs
+      simp [dg, hk']
+    rw [times_ok hR e1]
+    simp only []
+    -- second product
+    have hno2 : ¬ BPoly.Ovf t1 (BPoly.lagrangeBasis R.F dy p.2 1) := by
+      rintro ⟨x, hx, y, hy, hov⟩
+      obtain ⟨k, hk', hkd⟩ := ky y.1 (List.mem_map.2 ⟨y, hy, rfl⟩)
+      have := k1 x.1 (List.mem_map.2 ⟨x, hx, rfl⟩)
+      apply hov
+      rw [hkd]
+      unfold BPoly.NoOvf dg
+      simp
+      omega
+    obtain ⟨t2, e2, w2, m2⟩ := BPoly.mulNoReduce_some L w1.cv wy.cv hno2
+    have k2 : BPoly.KeysIn (fun d => d.1 < dx.length ∧ d.2 < dy.length) t2 := by
+      refine BPoly.KeysIn_mulNoReduce (fun a ha b hb s hs => ?_) e2
+      obtain ⟨k, hk', hkd⟩ := ky b hb
+      have h1 := k1 a ha
+      subst hkd
+      rw [BPoly.addDegs_of_noOvf (by unfold BPoly.NoOvf dg; simp; omega)] at hs
+      cases hs
+      simp [dg, hk', h1.1, h1.2]
+    rw [times_ok hR e2]
+    simp only []
+    have ws := BPoly.WF_scale L w2 hv
+    refine ⟨_, rfl, BPoly.WF_add L hf ws.cv, BPoly.KeysIn_add hk (BPoly.KeysIn_scale k2 v), ?_⟩
+    rw [BPoly.toMv_add L hf ws.cv, BPoly.toMv_scale L w2.cv hv, m2, m1, BPoly.toMv_one, one_mul,
+      bterm]
+
+end BivStep
+
+section Biv2
+open AddMonoidAlgebra (single)
+variable {α : Type} {F : FOps α} {K : Type} [Field K] (L : Lawful F K)
+
+/-- value of the basis polynomial for node `a` at node `b` (both among the distinct points) -/
+theorem evalHom_blagrangeBasis_mem {points : List α} (hp : ∀ p ∈ points, L.valid p)
+    (hone : L.valid (F.ofNat 1) ∧ L.embed (F.ofNat 1) = 1) (hnd : points.Nodup) {a b : α}
+    (ha : a ∈ points) (hb : b ∈ points) (v : ℕ) (x y : K)
+    (hz : (if v = 0 then x else y) = L.embed b) :
+    (a = b → BPoly.evalHom x y (BPoly.toMv L (BPoly.lagrangeBasis F points a v)) = 1) ∧
+    (a ≠ b → BPoly.evalHom x y (BPoly.toMv L (BPoly.lagrangeBasis F points a v)) = 0) := by
+  obtain ⟨i, hi, hie⟩ := List.getElem_of_mem ha
+  obtain ⟨j, hj, hje⟩ := List.getElem_of_mem hb
+  have ha' : a = points.getD i F.zero := by rw [List.getD_eq_getElem _ _ hi, hie]
+  have hz' : (if v = 0 then x else y) = pt L points j := by
+    rw [hz, pt, List.getD_eq_getElem _ _ hj, hje]
+  have := evalHom_blagrangeBasis_node L hp hone hnd hi hj v x y hz'
+  rw [← ha'] at this
+  rw [this]
+  constructor
+  · intro hab
+    have : i = j := (hnd.getElem_inj_iff).1 (by rw [hie, hje, hab])
+    rw [if_pos this]
+  · intro hab
+    have : i ≠ j := by
+      rintro rfl
+      exact hab (hie.symm.trans hje)
+    rw [if_neg this]
+
+/-- value of one term of the interpolant at a point of the grid -/
+theorem evalHom_bterm {dx dy : List α} (hdx : ∀ a ∈ dx, L.valid a) (hdxn : dx.Nodup)
+    (hdy : ∀ a ∈ dy, L.valid a) (hdyn : dy.Nodup)
+    (hone : L.valid (F.ofNat 1) ∧ L.embed (F.ofNat 1) = 1) {p q : α × α}
+    (hpx : p.1 ∈ dx) (hpy : p.2 ∈ dy) (hqx : q.1 ∈ dx) (hqy : q.2 ∈ dy) (v : α) :
+    (p = q → BPoly.evalHom (L.embed q.1) (L.embed q.2) (bterm L dx dy p v) = L.embed v) ∧
+    (p ≠ q → BPoly.evalHom (L.embed q.1) (L.embed q.2) (bterm L dx dy p v) = 0) := by
+  obtain ⟨x1, x0⟩ := evalHom_blagrangeBasis_mem L hdx hone hdxn hpx hqx 0
+    (L.embed q.1) (L.embed q.2) (by simp)
+  obtain ⟨y1, y0⟩ := evalHom_blagrangeBasis_mem L hdy hone hdyn hpy hqy 1
+    (L.embed q.1) (L.embed q.2) (by simp)
+  have hb : BPoly.evalHom (L.embed q.1) (L.embed q.2) (bterm L dx dy p v) =
+      L.embed v * (BPoly.evalHom (L.embed q.1) (L.embed q.2)
+          (BPoly.toMv L (BPoly.lagrangeBasis F dx p.1 0)) *
+        BPoly.evalHom (L.embed q.1) (L.embed q.2)
+          (BPoly.toMv L (BPoly.lagrangeBasis F dy p.2 1))) := by
+    rw [bterm, map_mul, map_mul, BPoly.evalHom_single]
+    simp
+  rw [hb]
+  constructor
+  · intro hpq
+    rw [x1 (by rw [hpq]), y1 (by rw [hpq])]
+    ring
+  · intro hpq
+    by_cases h1 : p.1 = q.1
+    · have h2 : p.2 ≠ q.2 := fun h2 => hpq (Prod.ext h1 h2)
+      rw [y0 h2]; ring
+    · rw [x0 h1]; ring
+
+theorem ballDistinct_iff (points : List (α × α)) :
+    BPoly.allDistinct F points = true ↔
+      (points.map fun (x, y) => (F.toStr x, F.toStr y)).Nodup := by
+  unfold BPoly.allDistinct
+  simp only [beq_iff_eq]
+  rw [eq_comm, eraseDups_length_eq_iff]
+
+theorem ballDistinct_iff_nodup {points : List (α × α)}
+    (hp : ∀ p ∈ points, L.valid p.1 ∧ L.valid p.2)
+    (htoStr : ∀ a b, L.valid a → L.valid b → (F.toStr a = F.toStr b ↔ a = b)) :
+    BPoly.allDistinct F points = true ↔ points.Nodup := by
+  rw [ballDistinct_iff]
+  constructor
+  · exact List.Nodup.of_map _
+  · refine List.Nodup.map_on fun x hx y hy h => ?_
+    simp only [Prod.mk.injEq] at h
+    exact Prod.ext ((htoStr _ _ (hp x hx).1 (hp y hy).1).1 h.1)
+      ((htoStr _ _ (hp x hx).2 (hp y hy).2).1 h.2)
+
+end Biv2
+
+
+section BivFold
+open AddMonoidAlgebra (single)
+variable {α : Type} {K : Type} [Field K]
+
+theorem binterp_fold {R : BPoly.Ring α} (hR : R.ideal = none) (L : Lawful R.F K) {dx dy : List α}
+    (hdx : ∀ a ∈ dx, L.valid a) (hdxn : dx.Nodup) (hdy : ∀ a ∈ dy, L.valid a) (hdyn : dy.Nodup)
+    (hone : L.valid (R.F.ofNat 1) ∧ L.embed (R.F.ofNat 1) = 1)
+    (hlx : dx.length < 2 ^ 64) (hly : dy.length < 2 ^ 64)
+    {points : List (α × α)} {values : List α} (hpx : ∀ p ∈ points, p.1 ∈ dx)
+    (hpy : ∀ p ∈ points, p.2 ∈ dy) (hv : ∀ v ∈ values, L.valid v)
+    (hlen : points.length = values.length) (m : ℕ) (hm : m ≤ points.length) :
+    ∃ f, ((points.zip values).take m).foldl (istep R dx dy) (.ok (some [])) = .ok (some f) ∧
+      BPoly.WF L f ∧ BPoly.KeysIn (fun d => d.1 < dx.length ∧ d.2 < dy.length) f ∧
+      BPoly.toMv L f = ∑ i ∈ Finset.range m,
+        bterm L dx dy (points.getD i (R.F.zero, R.F.zero)) (values.getD i R.F.zero) := by
+  induction m with
+  | zero => exact ⟨[], rfl, BPoly.WF_nil L, BPoly.KeysIn_nil _, by simp⟩
+  | succ m ih =>
+    obtain ⟨f, h0, h1, h2, h3⟩ := ih (by omega)
+    have hmp : m < points.length := by omega
+    have hmv : m < values.length := by omega
+    have hmz : m < (points.zip values).length := by simp; omega
+    rw [List.take_succ_eq_append_getElem hmz, List.foldl_append, List.getElem_zip, h0]
+    simp only [List.foldl_cons, List.foldl_nil]
+    obtain ⟨f', e, w, k, t⟩ := istep_spec hR L hdx hdxn hdy hdyn hone hlx hly h1 h2
+      (hpx _ (List.getElem_mem hmp)) (hpy _ (List.getElem_mem hmp)) (hv _ (List.getElem_mem hmv))
+    refine ⟨f', e, w, k, ?_⟩
+    rw [t, h3, Finset.sum_range_succ, List.getD_eq_getElem _ _ hmp, List.getD_eq_getElem _ _ hmv]
+
+end BivFold
 
 end Interp
 end Algobra
